@@ -44,6 +44,15 @@ video_sink_init(struct video_sink_s* self,
         channel_capacity_bytes);
     channel_new(&self->in, channel_capacity_bytes);
 
+    // Register the sink's reader now, while the channel is empty. Registering
+    // on the sink thread's first read is too late: until then the channel has
+    // no reader, the source writes (and wraps) freely, and the frames written
+    // before the sink thread first runs are overwritten and never stored.
+    {
+        struct slice empty = channel_read_map(&self->in, &self->reader);
+        channel_read_unmap(&self->in, &self->reader, empty.end - empty.beg);
+    }
+
     thread_init(&self->thread);
     return Device_Ok;
 }
